@@ -143,6 +143,42 @@ func docCorpus(add func(in input)) {
 	}
 }
 
+var boms = [][]byte{{0xEF, 0xBB, 0xBF}, {0xFF, 0xFE}, {0xFE, 0xFF}, {0xFF, 0xFE, 0x00, 0x00}, {0x00, 0x00, 0xFE, 0xFF}, {0x2B, 0x2F, 0x76}, {0xEF, 0xBB}, {0xFF}, {0xFE}}
+
+// utf16 encodes s as UTF-16 (BMP only is enough here) in the given byte order
+func utf16Bytes(s string, little bool) []byte {
+	var out []byte
+	for _, r := range s {
+		if r > 0xFFFF {
+			r = '?'
+		}
+		if little {
+			out = append(out, byte(r), byte(r>>8))
+		} else {
+			out = append(out, byte(r>>8), byte(r))
+		}
+	}
+	return out
+}
+
+// byte-order marks of every encoding in front of the documents, the documents transcoded to UTF-16
+// in both byte orders, and every short truncation of those (odd and even lengths) - for every decoder
+func bomCorpus(add func(in input)) {
+	for f := 0; f < 4; f++ {
+		d := seedDocs[f][0]
+		for _, bom := range boms {
+			for _, body := range [][]byte{[]byte(d), utf16Bytes(d, true), utf16Bytes(d, false)} {
+				whole := append(append([]byte{}, bom...), body...)
+				for n := 0; n <= len(whole) && n <= len(bom)+9; n++ {
+					add(input{K: "doc", D: f, Cfg: 0, T: "bom", B: whole[:n]})
+				}
+				add(input{K: "doc", D: f, Cfg: 0, T: "bom", B: whole})
+				add(input{K: "doc", D: f, Cfg: 0, T: "bom", B: whole[:len(whole)-1]})
+			}
+		}
+	}
+}
+
 func genDoc(r *coqfmt.Rng) input {
 	f := r.Intn(4)
 	i := r.Intn(len(seedDocs[f]))
@@ -150,6 +186,17 @@ func genDoc(r *coqfmt.Rng) input {
 	cfg := i % 3
 	if r.Chance(1, 5) {
 		cfg = r.Intn(3)
+	}
+	if r.Chance(1, 8) { // a byte-order mark, possibly a transcoded body, cut anywhere
+		body := d
+		switch r.Intn(3) {
+		case 1:
+			body = utf16Bytes(string(d), true)
+		case 2:
+			body = utf16Bytes(string(d), false)
+		}
+		whole := append(append([]byte{}, coqfmt.Pick(r, boms)...), body...)
+		return input{K: "doc", D: f, Cfg: cfg, T: "bom", B: whole[:r.Intn(len(whole)+1)]}
 	}
 	switch x := r.Intn(10); {
 	case x < 6: // single-byte mutation (replace, insert or delete), possibly truncated afterwards
